@@ -38,8 +38,12 @@ type e2eSpec struct {
 	// ProxyProto: the listener also expects a PROXY protocol header (--proxy-protocol-listener): the client sends a
 	// v1 header first; the limits must hold for the stacked listener as well
 	ProxyProto bool `json:"proxy_protocol,omitempty"`
-	WindowMS   int  `json:"window_ms,omitempty"`
-	CloseAtMS  int  `json:"close_at_ms,omitempty"`
+	// ExtraListener: the proxy is configured with one extra listener (HTTPProxyConfig.ExtraListeners) that has the
+	// same limits of its own; OnExtra: this transfer goes through the extra listener instead of the main one
+	ExtraListener bool `json:"extra_listener,omitempty"`
+	OnExtra       bool `json:"on_extra,omitempty"`
+	WindowMS      int  `json:"window_ms,omitempty"`
+	CloseAtMS     int  `json:"close_at_ms,omitempty"`
 }
 
 type e2eResult struct {
@@ -131,6 +135,16 @@ func e2ePlan(tier string) []e2eSpec {
 	}{{"down", "plain", 1 * MiB, 0, 1}, {"up", "tunnel", 0, 1 * MiB, 1}, {"down", "tunnel", 2 * MiB, 1 * MiB, 3}} {
 		add(x.dir, x.mode, x.rl, x.wl, x.conns, 2, 0)
 		p[len(p)-1].ProxyProto = true
+	}
+	// a proxy with an extra listener: both the main and the extra listener carry (their own) limits
+	for gi, x := range []struct {
+		dir    string
+		rl, wl int64
+	}{{"down", 1 * MiB, 0}, {"up", 0, 1 * MiB}} {
+		for _, onExtra := range []bool{false, true} {
+			add(x.dir, "plain", x.rl, x.wl, 1, 2, 900+gi)
+			p[len(p)-1].ExtraListener, p[len(p)-1].OnExtra = true, onExtra
+		}
 	}
 	// many connections behind a small limit: the backlog of post-paid calls grows far beyond any
 	// plausible per-call patience; very low limits; a transfer in flight while the listener is closed
@@ -250,6 +264,7 @@ func originHandler() http.Handler {
 const e2eDeadline = 25 * time.Second
 
 type rig struct {
+	extraAddr  string
 	proxyProto bool
 	proxy      *forwarder.HTTPProxy
 	proxyAddr  string
@@ -259,7 +274,7 @@ type rig struct {
 	done       chan struct{}
 }
 
-func newRig(rl, wl int64, proxyProto bool) (*rig, error) {
+func newRig(rl, wl int64, proxyProto, extra bool) (*rig, error) {
 	ln, err := net.Listen("tcp", "127.0.0.1:0")
 	if err != nil {
 		return nil, err
@@ -275,6 +290,11 @@ func newRig(rl, wl int64, proxyProto bool) (*rig, error) {
 	if proxyProto {
 		cfg.ProxyProtocolConfig = forwarder.DefaultProxyProtocolConfig()
 	}
+	if extra {
+		lc := *forwarder.DefaultListenerConfig("127.0.0.1:0")
+		lc.ReadLimit, lc.WriteLimit = forwarder.SizeSuffix(rl), forwarder.SizeSuffix(wl)
+		cfg.ExtraListeners = []forwarder.NamedListenerConfig{{Name: "extra", ListenerConfig: lc}}
+	}
 	tr, err := forwarder.NewHTTPTransport(forwarder.DefaultHTTPTransportConfig())
 	if err != nil {
 		return nil, err
@@ -288,6 +308,9 @@ func newRig(rl, wl int64, proxyProto bool) (*rig, error) {
 	go func() { p.Run(ctx); close(rg.done) }()
 	addrs, _ := p.Addr()
 	rg.proxyAddr = addrs[0]
+	if extra && len(addrs) > 1 {
+		rg.extraAddr = addrs[1]
+	}
 	return rg, nil
 }
 
@@ -302,8 +325,15 @@ func (r *rig) close() {
 
 // openConn returns a connection over which HTTP/1.1 requests for the origin can be written:
 // plain = a connection to the proxy (absolute-form requests), tunnel = CONNECT to the origin first.
-func (r *rig) openConn(mode string) (net.Conn, *bufio.Reader, error) {
-	c, err := net.DialTimeout("tcp", r.proxyAddr, 5*time.Second)
+func (r *rig) openConn(mode string, onExtra bool) (net.Conn, *bufio.Reader, error) {
+	addr := r.proxyAddr
+	if onExtra {
+		if r.extraAddr == "" {
+			return nil, nil, errors.New("the proxy has no extra listener")
+		}
+		addr = r.extraAddr
+	}
+	c, err := net.DialTimeout("tcp", addr, 5*time.Second)
 	if err != nil {
 		return nil, nil, err
 	}
@@ -398,7 +428,7 @@ func (r *rig) transfer(spec e2eSpec) e2eResult {
 		wg.Add(1)
 		go func() {
 			defer wg.Done()
-			c, br, err := r.openConn(spec.Mode)
+			c, br, err := r.openConn(spec.Mode, spec.OnExtra)
 			if err != nil {
 				fail(err)
 				return
@@ -524,7 +554,7 @@ func runE2E(specs []e2eSpec) []e2eResult {
 			defer wg.Done()
 			defer func() { <-sem }()
 			first := specs[idx[0]]
-			rg, err := newRig(first.RL, first.WL, first.ProxyProto)
+			rg, err := newRig(first.RL, first.WL, first.ProxyProto, first.ExtraListener)
 			if err != nil {
 				for _, i := range idx {
 					results[i] = e2eResult{Spec: specs[i], Err: "rig: " + err.Error()}
